@@ -23,6 +23,20 @@ impl Aff {
     pub fn outdim(&self) -> usize {
         self.bias.len()
     }
+    /// x -> f(x - d) for a function: bias -= M d
+    pub fn shift_function(&mut self, d: &[f64]) {
+        for i in 0..self.mat.len() {
+            let s: f64 = self.mat[i].iter().zip(d.iter()).map(|(m, v)| m * v).sum();
+            self.bias[i] -= s;
+        }
+    }
+    /// {x | A (x - d) <= b} for a predicate / polytope: bias += A d
+    pub fn shift_predicate(&mut self, d: &[f64]) {
+        for i in 0..self.mat.len() {
+            let s: f64 = self.mat[i].iter().zip(d.iter()).map(|(m, v)| m * v).sum();
+            self.bias[i] += s;
+        }
+    }
     pub fn to_lib(&self) -> AffFunc {
         AffFunc::from_mats(arr2(&self.mat, self.indim()), arr1(&self.bias))
     }
@@ -219,7 +233,38 @@ pub enum Spec {
     D(Aff, Vec<Option<Box<Spec>>>),
 }
 
+/// A translation vector with components of magnitude 3e6 .. 8.4e6 (exactly representable): moves a tree
+/// so that all its regions lie far from the origin.
+pub fn far_shift(rng: &mut Rng, n: usize) -> Vec<f64> {
+    let mut d: Vec<f64> = (0..n).map(|_| *rng.pick(&[0.0, 3.0e6, -3.0e6, 5.0e6, -5.0e6, 8388608.0, -8388608.0])).collect();
+    if d.iter().all(|v| *v == 0.0) {
+        let j = rng.below(n);
+        d[j] = *rng.pick(&[3.0e6, -5.0e6, 8388608.0]);
+    }
+    d
+}
+
 impl Spec {
+    /// replaces the tree function f by x -> f(x - d): predicates A x <= b + A d, terminals M x + (c - M d)
+    pub fn translate(&mut self, d: &[f64]) {
+        match self {
+            Spec::T(a) => {
+                for i in 0..a.mat.len() {
+                    let s: f64 = a.mat[i].iter().zip(d.iter()).map(|(m, v)| m * v).sum();
+                    a.bias[i] -= s;
+                }
+            }
+            Spec::D(a, kids) => {
+                for i in 0..a.mat.len() {
+                    let s: f64 = a.mat[i].iter().zip(d.iter()).map(|(m, v)| m * v).sum();
+                    a.bias[i] += s;
+                }
+                for k in kids.iter_mut().flatten() {
+                    k.translate(d);
+                }
+            }
+        }
+    }
     pub fn count(&self) -> usize {
         match self {
             Spec::T(_) => 1,
